@@ -112,6 +112,10 @@ def _boundary_array(rng, shape, cplx, leaf):
     n = int(np.prod(shape))
     kind = leaf["kind"]
     mode = int(rng.integers(5))
+    if kind in ("l2ball", "hubers", "hubern") and rng.random() < 0.5:
+        mode = 1  # on the threshold
+    if kind == "nonneg" and rng.random() < 0.5:
+        mode = 2  # on the set, zeros included
     if mode == 0:
         a = np.zeros(shape)
     elif mode == 1 and kind in ("hubers", "hubern"):
@@ -131,6 +135,7 @@ def _boundary_array(rng, shape, cplx, leaf):
             a.flat[0] = r
     elif mode == 2:
         a = np.abs(common.dyadic(rng, shape, bits=2, scale=3.0))  # non-negative: on the set of NonNegativeIndicator
+        a.flat[int(rng.integers(n))] = 0.0  # a boundary point of the orthant
     elif mode == 3:
         a = np.abs(common.dyadic(rng, shape, bits=2, scale=3.0))
         a.flat[int(rng.integers(n))] = -0.25  # exactly one negative entry
@@ -604,4 +609,49 @@ def findings(ctx, model):
 
 
 def replay(ctx, model, case):
-    print("replay: case recorded in the replay file; re-run `./check C09 quick` with the same VERIF_SEED to reproduce")
+    """re-evaluate the property oracle (implementation vs independent numpy formula) at the recorded case"""
+    scico = common.setup_scico()
+    import scico.functional as F
+    import scico.numpy as snp
+    from scico import metric
+
+    c = case.get("case", case)
+    failing = None
+    if "leaf" in c and "x" in c:  # base functional
+        leaf, cplx = c["leaf"], c["cplx"]
+        shapes = [tuple(s) for s in c["shape"]]
+        raw = c["x"]["b"] if "b" in c["x"] else [c["x"]["a"]]
+        arrs = [G.unil(b2fs(b), cplx, s) for b, s in zip(raw, shapes)]
+        x = snp.blockarray([snp.array(a) for a in arrs]) if "b" in c["x"] else snp.array(arrs[0])
+        impl = _impl(lambda: float(G.build_leaf(F, leaf)(x)))
+        want = G.np_leaf(leaf, arrs)
+        if impl[0] == "ok" and not common.close(impl[1], want, k=64, rtol=1e-8):
+            failing = {"impl": impl[1], "formula": want}
+    elif "metric" in c:
+        cplx = c["cplx"]
+        shape = tuple(c["shape"])
+        a, b, cc = (G.unil(b2fs(c[k]), cplx, shape) for k in ("a", "b", "c"))
+        fn = getattr(metric, c["metric"])
+        kw = {"signal_range": c["range"]} if c.get("range") is not None else {}
+        impl = _impl(lambda: float(fn(snp.array(a), snp.array(b), snp.array(cc)) if c["metric"] == "isnr" else fn(snp.array(a), snp.array(b), **kw)))
+        want = _np_metric(c["metric"], a, b, cc, c.get("range"))
+        if impl[0] == "ok" and not common.close(impl[1], want, k=64, rtol=1e-8):
+            failing = {"impl": impl[1], "formula": want}
+    elif "t" in c:  # wrapper tree
+        obj, _ = G.build(scico, c)
+        shape = G.norm_shape(c["shape"])
+        if obj is not TypeError:
+            impl = _impl(lambda: float(obj(G.arg_to_scico(c["x"], shape, c["cplx"]))))
+            blocks = G._json_blocks(c["x"], shape, c["cplx"]) if isinstance(shape, list) else [G.unil(b2fs(c["x"]["a"]), c["cplx"], tuple(shape))]
+            try:
+                want = G.np_eval(c, blocks)
+                if impl[0] == "ok" and not common.close(impl[1], want, k=256, rtol=1e-8):
+                    failing = {"impl": impl[1], "formula": want}
+            except G.NotAvail:
+                pass
+    else:
+        print("replay: this case kind is reproduced by re-running `./check C09 quick` with the recorded VERIF_SEED")
+        return
+    print("replay:", "property FAILS on implementation:" if failing else "no failure at this input", failing or "")
+    if failing:
+        ctx.violation({"kind": "failing-input", "case": c, "failing": failing}, True, "replay")
